@@ -15,7 +15,7 @@ SHARDS = {"quick": 12, "thorough": 16}
 WATCHDOG = {"quick": 1500, "thorough": 3300}
 REQUIRED_CLASSES = {t: ["elements:hexahedra", "elements:tetrahedra", "elements:mixed", "mixed:lowest_id_is_tetrahedron",
                         "mixed:lowest_id_is_hexahedron", "ids:contiguous_from_1", "ids:permuted", "ids:gaps", "ids:from_0",
-                        "ids:large", "rows:shuffled", "positions:perturbed", "hotspot:several_components", "hotspot:tie_in_peaks_possible",
+                        "ids:large", "rows:shuffled", "positions:perturbed", "hotspot:several_components", "hotspot:element_nodal_values", "hotspot:tie_in_peaks_possible",
                         "hotspot:threshold_exactly_met"]
                     for t in ("quick", "thorough")}
 REQUIRED_MONITORS = ["gradient(lstsq):exact_on_linear_field", "gradient_3D:exact_on_linear_field", "mapping:same_points_identity",
@@ -185,6 +185,12 @@ def run_case(case, ctx):
     valmap = {int(i_): float(v) for i_, v in zip(nid, node_val)}
     hs_df = df_sh.copy()
     hs_df["v"] = [valmap[int(n)] for n in hs_df.index.get_level_values("node_id")]
+    if rng.random() < 0.4:
+        # unaveraged (element-nodal) results: a node carries a different value in each of its elements
+        hs_df["v"] = hs_df["v"].to_numpy() * rng.uniform(0.75, 1.0, len(hs_df))
+        if "hotspot:tie_in_peaks_possible" in ctx._case_tags:
+            hs_df["v"] = hs_df["v"].round(1)
+        ctx.tag("hotspot:element_nodal_values")
     frac = float(rng.choice([0.5, 0.6, 0.7, 0.8, 0.9]))
     vmax = hs_df["v"].max()
     if (hs_df["v"] == frac * vmax).any():
